@@ -45,6 +45,11 @@ def queue_aliases(fn_node, qf):
                     for a, b in zip(t.elts, n.value.elts):
                         if isinstance(a, ast.Name) and astq.is_self_attr(b, qf):
                             out.add(a.id)
+        # the other direction: a local that is stored into the field (`q = self.QueueCls(n); self.<qf> = q`) names the same object
+        if isinstance(n, (ast.Assign, ast.AnnAssign)) and n.value is not None and isinstance(n.value, ast.Name):
+            tg = n.targets if isinstance(n, ast.Assign) else [n.target]
+            if any(astq.is_self_attr(t, qf) for t in tg):
+                out.add(n.value.id)
     return out
 
 
@@ -218,7 +223,12 @@ def _hot_methods(m, cls, qf, roots=("urlopen",)):
 
     def direct(fn):
         al = queue_aliases(fn, qf)
-        return any(is_queue_call(c, qf, al) for c in astq.calls(fn))
+        if any(is_queue_call(c, qf, al) for c in astq.calls(fn)):
+            return True
+        # a helper that disposes of a connection it is given (`def _discard(conn): if conn: conn.close()`) carries a lease event too
+        params = {a.arg for a in fn.args.posonlyargs + fn.args.args + fn.args.kwonlyargs} - {"self", "cls"}
+        return fn.name.startswith("_") and not fn.name.startswith("__") and any(
+            isinstance(c.func, ast.Attribute) and c.func.attr == "close" and isinstance(c.func.value, ast.Name) and c.func.value.id in params for c in astq.calls(fn))
 
     hot = {n_ for n_, f_ in meths.items() if direct(f_.node)}
     changed = True
@@ -268,7 +278,7 @@ def lease_analysis(ctx, cls):
         if f.attr in hot:
             out += n.args[:1]
         if f.attr == "_make_request":
-            out += n.args[:1] + [k.value for k in n.keywords if k.arg == "response_conn"]
+            out += n.args[:1] + [k.value for k in n.keywords if k.arg == "response_conn" or k.arg is None]  # (a **mapping may carry response_conn)
         return out
 
     it.relevant = compute_relevant(fns, is_event, obj_args) | {"self.block"}
